@@ -1,0 +1,22 @@
+//go:build verif
+
+package frugal
+
+// Verification hooks for property C20 (NATS server shutdown). Add-only; compiled
+// only with the build tag "verif".
+
+// VerifProtocolEphemeral returns the ephemeral properties map the transport layer
+// attached to an input protocol (the map handed to the NATS server's
+// request received/started/finished event handlers).
+func VerifProtocolEphemeral(p *FProtocol) map[interface{}]interface{} {
+	return p.ephemeralProperties
+}
+
+// VerifNatsServerQueueLen returns len(workC) of a server built by FNatsServerBuilder,
+// or -1 if s is not such a server.
+func VerifNatsServerQueueLen(s FServer) int {
+	if f, ok := s.(*fNatsServer); ok {
+		return len(f.workC)
+	}
+	return -1
+}
